@@ -323,10 +323,27 @@ func decorate(s *script, r *rand.Rand, idx int) {
 			st["name"] = toAny(user())
 		}
 	}
+	// a thread in a fresh category - an article, a reply, an unrelated later article, its reply, a reply to the reply -
+	// and a delete-article with the "delete child articles" field absent / 0 / 1 on an article with or without replies
+	if !deep && r.Intn(3) == 0 {
+		cat := mapPath([]any{toAny([]byte("\x00thread"))})
+		post := func(parent int) map[string]any {
+			return map[string]any{"op": "post", "path": cat, "parent": float64(parent), "title": toAny(title()), "body": toAny(body())}
+		}
+		names := cat.([]any)
+		tail := []map[string]any{{"op": "mkcat", "path": names[:len(names)-1], "name": names[len(names)-1]},
+			post(0), post(1), post(0), post(3), post(2)}
+		tail = append(tail, map[string]any{"op": "delart", "path": cat, "id": float64([]int{1, 1, 3, 2, 4, 5}[r.Intn(6)]), "rec": float64(r.Intn(3) - 1)})
+		if r.Intn(2) == 0 {
+			tail = append(tail, post(0))
+		}
+		tail = append(tail, map[string]any{"op": "reload"})
+		s.Steps = append(s.Steps, tail...)
+	}
 	// a request about an article in a category that does not exist (its parent does)
 	if !deep && r.Intn(5) == 0 {
 		ghost := rename([]byte("\x00ghost"))
-		s.Steps = append(s.Steps, map[string]any{"op": "delart", "path": mapPath([]any{toAny(ghost)}), "id": float64(1 + r.Intn(2))})
+		s.Steps = append(s.Steps, map[string]any{"op": "delart", "path": mapPath([]any{toAny(ghost)}), "id": float64(1 + r.Intn(2)), "rec": float64(-1)})
 	}
 	if deep {
 		var pre []map[string]any
